@@ -24,11 +24,15 @@ type c03Op struct {
 	typ    string
 	ts     int64
 	val    float64
+	text   string
 }
 
 func (o c03Op) String() string {
 	switch o.kind {
 	case "np":
+		if o.text != "" {
+			return fmt.Sprintf("nodepoint %s %s@%d=%v text=(%d bytes)...%s", o.node, o.typ, o.ts, o.val, len(o.text), o.text[len(o.text)-1:])
+		}
 		return fmt.Sprintf("nodepoint %s %s@%d=%v", o.node, o.typ, o.ts, o.val)
 	case "ep":
 		return fmt.Sprintf("edgepoint %s>%s %s@%d=%v", o.parent, o.node, o.typ, o.ts, o.val)
@@ -38,6 +42,9 @@ func (o c03Op) String() string {
 
 var c03Nodes = []string{"A", "B", "C"}
 
+// c03Long: 300 bytes (file contents, certificates and the like are stored as point text)
+var c03Long = strings.Repeat("0123456789abcdefghijklmnopqrstuvwxyz ", 8) + "tail"
+
 func c03Ops(root string) []c03Op {
 	var ops []c03Op
 	for _, n := range append([]string{root}, c03Nodes...) {
@@ -45,7 +52,9 @@ func c03Ops(root string) []c03Op {
 			ops = append(ops, c03Op{kind: "np", node: n, typ: "v", ts: ts, val: float64(ts) * 1.5})
 		}
 		// same timestamp as an earlier write, other value: the store accepts it (ties overwrite)
-		ops = append(ops, c03Op{kind: "np", node: n, typ: "v", ts: 2, val: 99})
+		// ... and two rewrites that carry a long text and differ from each other only in its last byte
+		ops = append(ops, c03Op{kind: "np", node: n, typ: "v", ts: 2, val: 99, text: c03Long + "a"})
+		ops = append(ops, c03Op{kind: "np", node: n, typ: "v", ts: 2, val: 99, text: c03Long + "b"})
 	}
 	parents := map[string][]string{"A": {root}, "B": {root, "A"}, "C": {root, "A", "B"}}
 	for _, n := range c03Nodes {
@@ -75,7 +84,7 @@ func (m *c03Model) key() string {
 	var s []string
 	for n, ps := range m.np {
 		for t, p := range ps {
-			s = append(s, fmt.Sprintf("N%s/%s@%d=%v", n, t, p.Time.UnixNano(), p.Value))
+			s = append(s, fmt.Sprintf("N%s/%s@%d=%v/%d%s", n, t, p.Time.UnixNano(), p.Value, len(p.Text), p.Text[max(0, len(p.Text)-1):]))
 		}
 	}
 	for e, ps := range m.edges {
@@ -119,7 +128,7 @@ func c03Body(depths []int) mc.Body {
 			if o.parent == "R" {
 				o.parent = root
 			}
-			p := data.Point{Type: o.typ, Time: time.Unix(0, o.ts), Value: o.val}
+			p := data.Point{Type: o.typ, Time: time.Unix(0, o.ts), Value: o.val, Text: o.text}
 			switch o.kind {
 			case "np":
 				err = client.SendNodePoints(inst.Nc, o.node, data.Points{p}, true)
